@@ -53,7 +53,7 @@ Plan gen_repair(uint64_t seed, const string &prop) {
   Plan p;
   p.mode = "repair"; p.seed = seed;
   p.cfg = random_config(r);
-  p.cfg.wbs = 65536; p.cfg.reuse = 0;
+  p.cfg.wbs = 65536; // reuse_logs stays random: with it the first descriptor (MANIFEST-000001) lives on, and repair writes one of that name
   if (r.chance(0.7)) p.cfg.cmp = 0;
   p.sc = random_sched(r, false);
   p.params["prop"] = prop;
@@ -73,6 +73,7 @@ Plan gen_repair(uint64_t seed, const string &prop) {
   }
   p.seti("loss", (long)r.below(6));
   p.seti("kill", r.chance(0.35));
+  p.seti("twice", r.chance(0.2)); // ldb_repair run twice in a row (the second one finds the first one's descriptor)
   p.seti("followups", (long)r.range(1, 4));
   return p;
 }
@@ -134,12 +135,23 @@ void exec_repair(const Plan &p, RunOut *out) {
       for (auto &kv : all) { std::set<string> files; for (auto &v : kv.second) files.insert(v.second.src); if (files.size() >= 2) multi_file_versions = true; }
     }
     simfs::Journal journal;
+    size_t jfrom = 0; // journal position at which the (last) repair starts
     if (!failed()) {
       DbOptions opt; opt.set(p.cfg, false);
       simfs::start_recording(&journal, dir);
       int rc = ldb_repair(dir.c_str(), &opt.o);
       count("repairs");
       if (rc != LDB_OK) violation("C19", "repair_failed", "ldb_repair fails with %s (%s)", rcname(rc), loss_name[loss]);
+      if (!failed() && p.geti("twice", 0)) {
+        // "above everything already on disk" refers to the directory the second repair finds: the first one has moved
+        // logs and old descriptors to lost/, which is not part of the database any more
+        max_num = 0;
+        for (auto &n : simfs::list_dir(dir)) { uint64_t num; int fc; if (parse_db_filename(n, &num, &fc)) max_num = std::max(max_num, num); }
+        jfrom = journal.e.size();
+        rc = ldb_repair(dir.c_str(), &opt.o);
+        probe("repaired_twice");
+        if (rc != LDB_OK) violation("C19", "repair_failed", "a second ldb_repair right after the first fails with %s (%s)", rcname(rc), loss_name[loss]);
+      }
       ldb_t *db = nullptr;
       if (!failed()) { rc = ldb_open(dir.c_str(), &opt.o, &db); if (rc != LDB_OK) { violation("C19", "open_after_repair_failed", "ldb_open after a successful repair fails with %s (%s)", rcname(rc), loss_name[loss]); db = nullptr; } }
       if (db) {
@@ -213,7 +225,8 @@ void exec_repair(const Plan &p, RunOut *out) {
       simfs::stop_recording();
       // numbers continue above everything already on disk
       if (!failed()) {
-        for (auto &e : journal.e) {
+        for (size_t ji = jfrom; ji < journal.e.size(); ji++) {
+          const simfs::JEntry &e = journal.e[ji];
           if (e.t != simfs::J_CREATE) continue;
           if (e.a.find("/lost/") != string::npos) continue;
           uint64_t num; int fc;
